@@ -190,7 +190,7 @@ def run(chk):
         scns.append(pipe.gen_scenario(rng, dry=False, strategy=rng.choice(["stop", "ignore", "override", "manual"]), big=(i % 6 == 0)))
     small = []
     for st in ("stop", "ignore", "override"):
-        small += list(pipe.exhaustive_plans(2, strategy=st))
+        small += list(pipe.exhaustive_plans(2, strategy=st)) + list(pipe.exhaustive_plans(2, strategy=st, roots=2))
         if not quick:
             small += list(pipe.exhaustive_plans(3, strategy=st))
     stats["exhaustive_small_scope"] = len(small)
